@@ -9,7 +9,7 @@ BASE = dict(Pool='Pool5', Types='T6', AMAX=2, MaxGates=3, MaxOuts=2, Depth=3, Bl
 INVS = ['InvWF1', 'InvWF2', 'InvWF3', 'InvWF4', 'InvWF5', 'InvWF6', 'InvUsersTotal']
 
 
-def write_cfg(path, params, view=True, invariants=INVS, extra=''):
+def write_cfg(path, params, view=True, invariants=INVS, extra='', props=()):
     p = dict(BASE)
     p.update(params)
     with open(path, 'w') as f:
@@ -21,6 +21,8 @@ def write_cfg(path, params, view=True, invariants=INVS, extra=''):
             f.write(f' {k} {"<-" if k in ("Pool", "Types", "BlockNames") else "="} {v}\n')
         for i in invariants:
             f.write(f'INVARIANT {i}\n')
+        for pr in props:
+            f.write(f'PROPERTY {pr}\n')
         f.write(extra)
 
 
@@ -36,7 +38,7 @@ def bfs_transitions(params, tag='api-bfs', workers=16):
     """Exhaustive BFS; every generated transition is returned as the history reaching it."""
     wd = tlc.workdir(tag)
     cfg = os.path.join(wd, 'api.cfg')
-    write_cfg(cfg, dict(params, EmitAll='TRUE'))
+    write_cfg(cfg, dict(params, EmitAll='TRUE'), props=('ModelObeysProperties',))
     res = tlc.run_model('MC_API', cfg, workers=workers, tag=tag + '-run', xmx='12g')
     hs = _histories(res['stdout'])
     tlc.cleanup(wd)
